@@ -246,6 +246,11 @@ func verif_statusFailedCallback(pw *Wrapper) {
 
 // ---------------------------------------------------------------- the manager
 
+// VerifManagerOK: the manager has been built by NewManager.
+//
+//verif:pure
+func VerifManagerOK(pm *Manager) bool { return pm != nil && pm.proxies != nil }
+
 // Monitor invariants of the manager (assumed when mu is taken, proved when it
 // is released): every registered wrapper is a live one - its two channels exist
 // and are open, i.e. it has not been stopped - and two names never share a
